@@ -5,7 +5,7 @@ from ..core import rule
 from ..index import AnalysisError, dotted, src, walk_no_nested, names_in
 from ..cfg import CFG, const_env_step, eval3, UNK, OTHER
 from ..domains import check_pred
-from ..util import node_calls, own_expr, last_name
+from ..util import enclosing_loops, loop_targets, node_calls, own_expr, last_name
 from .slots import HANDLELIM, FQHANDLE
 
 CLS = 'HandleLimiter'
@@ -420,7 +420,18 @@ def r5(ctx):
         meth = [k for k in c.keywords if k.arg == 'method']
         ok = bool(meth) and isinstance(meth[0].value, ast.Constant) and meth[0].value.value == 1
         p = c.args[0]
-        okp = isinstance(p, ast.JoinedStr) and src(p).rstrip("'\"").endswith('.gz') and {'cell', 'readIdx'} <= names_in(p)
+        # the path names the cell (a value derived from the record's `bi` and `MX` tags) and the mate label of the zip loop
+        loops = enclosing_loops(f, c)
+        lv = {n for l in loops for n in loop_targets(l.target)}
+        cellvars = set()
+        for l in loops:
+            for a in walk_no_nested(l):
+                if isinstance(a, ast.Assign) and len(a.targets) == 1 and isinstance(a.targets[0], ast.Name):
+                    consts = {x.value for x in ast.walk(a.value) if isinstance(x, ast.Constant)}
+                    if {'bi', 'MX'} <= consts and names_in(a.value) & lv:
+                        cellvars.add(a.targets[0].id)
+        used = names_in(p)
+        okp = isinstance(p, ast.JoinedStr) and src(p).rstrip("'\"").endswith('.gz') and bool(used & cellvars) and bool(used & lv)
         ctx.emit('C19-R5', ok and okp, FQHANDLE, c, f'per-cell write: path {src(p)} method={src(meth[0].value) if meth else None}', key='sc-write-gzip')
     # bamSplitByTag and others: informational count of HandleLimiter users
     g = ctx.fn(FQHANDLE, 'FastqHandle.close')
